@@ -215,8 +215,9 @@ def run(ck, P):
         if ev.kind == "assign" and ev.e["op"] == "=":
             if v is not None:
                 ok = v > 0 and (v & (v - 1)) == 0
-            elif r["k"] == "bin" and r["op"] == "<<" and S(r["l"]).endswith("->table_size") and (cval(r["r"]) or 0) >= 1:
-                ok = True
+            elif r["k"] == "bin" and r["op"] == "<<" and (cval(r["r"]) or 0) >= 1 and \
+                    (S(r["l"]).endswith("->table_size") or rules.Expander(f, stable=False).at(ev, r["l"]).endswith("->table_size")):
+                ok = True           # table_size << k, possibly through a local that saved table_size
             elif r["k"] == "var" and r.get("vk") == "local":
                 ds = [d for d in f.events() if d.kind in ("decl", "assign") and d.lhs is not None and S(d.lhs) == r["name"] and d.rhs is not None]
                 ok = bool(ds) and all(S(d.rhs).endswith("->table_size") for d in ds)
@@ -227,8 +228,9 @@ def run(ck, P):
         allocs = [ev for ev in f.events() if ev.kind in ("decl", "assign") and ev.rhs is not None and strip(ev.rhs)["k"] == "call"
                   and not strip(ev.rhs).get("callee") and S(strip(ev.rhs)["fn"]).endswith("_calloc")
                   and len(strip(ev.rhs)["args"]) > 1 and "map_elem" in (strip(strip(ev.rhs)["args"][1]) or {}).get("of", "")]
-        sizes = [S(strip(a.rhs)["args"][0]) for a in allocs]
-        stores = [S(w.rhs) for w in ws if w.fn is f and not (strip(w.rhs)["k"] == "var" and strip(w.rhs).get("vk") == "local")]
+        exf = rules.Expander(f, stable=False)       # values at definition time: `old_size << 1` is `m->table_size << 1`
+        sizes = [exf.at(a, strip(a.rhs)["args"][0]) for a in allocs]
+        stores = [exf.at(w, w.rhs) for w in ws if w.fn is f and not (strip(w.rhs)["k"] == "var" and strip(w.rhs).get("vk") == "local")]
         ck.ob("C05.4-POW2", f.site("alloc==size"), bool(sizes) and all(s in stores for s in sizes),
               "table allocated with %s entries, table_size set to %s" % (sizes, stores), nontrivial=False)
 
